@@ -37,6 +37,7 @@ type outcome struct {
 	syncs        int     // oracle evaluations that ended with a checked claim
 	claimsCheckd int     // number of (claim, dump) comparisons
 	inconclusive string  // budget hit (not a violation)
+	skipped      string  // finding id whose trigger the case turned out to contain (case not run)
 	vioKey       string
 	vioWhat      string
 }
@@ -613,6 +614,10 @@ func (p *pair) classify(phase string, out *outcome, ldump *t38.Dump, lst, st srv
 	case (lastPos == 0 || lastPos2 == 0) && fst.aofSize != lst.aofSize:
 		// resumed at 0 although it held data: its log counter (old + leader's) gives it away
 		key = findingKeepsOldData
+	case lastPos > 0 && lastPos2 > 0 && fst.aofSize > lst.aofSize && fst.aofSize != 0:
+		// resumed inside the log, yet the follower's log counter ran past the
+		// leader's: it kept (and re-appended) the part behind the verified prefix
+		key = findingKeepsTail
 	case streams >= 2:
 		// a new replication stream was opened while an older one was still open:
 		// two follow sessions overlapped, and the flag is shared between them
@@ -725,6 +730,16 @@ func runCase(cs *caseSpec, ro runOpts) (out *outcome) {
 		out.label("leader-log-at-follow:" + sizeClass(st.aofSize))
 	}
 	out.label("init:" + cs.Init)
+	if cs.AvoidBoundary {
+		if cmds, _, err := t38.ParseAOF(p.L.AOFPath()); err == nil {
+			for _, c := range cmds {
+				if c.End == window {
+					out.skipped = findingKeepsTail
+					return
+				}
+			}
+		}
+	}
 	if err := p.startFollower(cs, out); err != nil {
 		out.inconclusive = "follower set-up: " + err.Error()
 		return
